@@ -199,7 +199,9 @@ impl Voice {
             Kind::InDly => "delay".into(),
             Kind::FeedDly => format!("feeddly{}", self.id),
             Kind::Rand => format!("rv{}_0", self.id),
-            Kind::ArrSelf => "arrself".into(),
+            // odd `n`: the state is an array of arrays (the inner arrays are reachable from the
+            // state words only through the outer one)
+            Kind::ArrSelf => if self.n % 2 == 1 { "matself".into() } else { "arrself".into() },
         };
         base
     }
@@ -256,6 +258,7 @@ impl Voice {
                 v,
             ),
             // the call yields an array; the channel reads its first element
+            Kind::ArrSelf if self.n % 2 == 1 => (format!("let {v}h = {call};\n  let {v} = {v}h[0][0]"), v),
             Kind::ArrSelf => (format!("let {v}h = {call};\n  let {v} = {v}h[0]"), v),
             _ => (format!("let {v} = {call}"), v),
         }
@@ -277,6 +280,10 @@ impl Voice {
         let n = self.n;
         let mut d = match self.kind {
             Kind::Rand => self.rand.as_ref().map(|r| r.defs(self.id)).unwrap_or_default(),
+            Kind::ArrSelf if self.n % 2 == 1 => vec![(
+                "matself".into(),
+                "fn matself(x){\n  let prev = self\n  let p0 = if (mem(1.0) > 0.5) { prev[0][0] } else { 0.0 }\n  [[p0 + x, p0], [0.5]]\n}".into(),
+            )],
             Kind::ArrSelf => vec![(
                 "arrself".into(),
                 // the guard keeps the first call from indexing the zero handle of the unset cell
